@@ -343,3 +343,82 @@ def follow(f, start_block, truth, targets, limit=200):
             raise UnknownAtom("branch into a pruned edge at %s" % blk.get("tloc"))
         b = nxt
     raise UnknownAtom("walk did not terminate")
+
+
+def loops_of(f):
+    """Natural loops: [(header block, set of blocks)] from back edges u -> h with h dominating u."""
+    dom = f.dominators()
+    out = {}
+    for u in dom:
+        for h in f.succ(u):
+            if h in dom.get(u, ()):
+                body = {h, u}
+                work = [u]
+                while work:
+                    x = work.pop()
+                    if x == h:
+                        continue
+                    for p in f.preds(x):
+                        if p not in body and p in dom:
+                            body.add(p)
+                            work.append(p)
+                out.setdefault(h, set()).update(body)
+    return sorted(out.items())
+
+
+def stale_across_iterations(f):
+    """[(var, use event, def event)]: a local declared outside a loop is re-assigned inside it,
+    and some use inside the loop can be reached from the loop header in one iteration without
+    passing any definition of the variable - the value of a previous iteration leaks in.
+    Variables whose in-loop definitions read the variable itself (accumulators, flags) are
+    intended to be loop-carried and are skipped."""
+    out = []
+    for h, body in loops_of(f):
+        defs = {}
+        for b in body:
+            for i, ev in enumerate(f.blocks[b]["ev"]):
+                if ev["e"] == "def" and ev.get("var") and ev.get("kind") != "decl":
+                    defs.setdefault(ev["var"], []).append((b, i, ev))
+        for v, ds in defs.items():
+            if v.startswith("__"):
+                continue
+            decl_out = [(b, i) for (b, i, e) in f.events("def")
+                        if e.get("var") == v and e.get("kind") == "decl" and b not in body]
+            if not decl_out:
+                continue
+            if any(v in d.get("refs", []) or d.get("kind") in ("compound", "incdec") or
+                   d.get("rhs") in ("true", "false") for (_b, _i, d) in ds):
+                continue
+            # walk from the header within the body; stop at definitions of v
+            seen = set()
+            work = [(h, 0)]
+            while work:
+                b, i0 = work.pop()
+                evs = f.blocks[b]["ev"]
+                killed = False
+                for k in range(i0, len(evs)):
+                    e = evs[k]
+                    if e["e"] == "def" and e.get("var") == v:
+                        killed = True
+                        break
+                    uses = []
+                    if e["e"] == "call":
+                        for a in e.get("args", []):
+                            if v in a.get("refs", []):
+                                uses.append(a)
+                        rp = e.get("recv", {}).get("path") or {}
+                        if rp.get("root") == "l:" + v and e.get("constm", True):
+                            uses.append(e)
+                    elif e["e"] in ("write", "return") and v in e.get("refs", []):
+                        uses.append(e)
+                    if uses:
+                        out.append((v, e, ds[0][2]))
+                        killed = True
+                        break
+                if killed:
+                    continue
+                for sx in f.succ(b):
+                    if sx in body and sx != h and sx not in seen:
+                        seen.add(sx)
+                        work.append((sx, 0))
+    return out
